@@ -161,6 +161,24 @@ class _Sym:
 S = _Sym()
 
 
+class untraced:
+    """`with untraced():` runs a concrete part of a harness (building parsers, declaring links) outside CrossHair's tracer;
+    a no-op when no tracer is active (warm-up calls, native replay)."""
+
+    def __enter__(self):
+        from crosshair.tracers import NoTracing, is_tracing
+
+        self._ctx = NoTracing() if is_tracing() else None
+        if self._ctx is not None:
+            self._ctx.__enter__()
+        return self
+
+    def __exit__(self, *a):
+        if self._ctx is not None:
+            return self._ctx.__exit__(*a)
+        return False
+
+
 def replay_path(payload):
     """Generic native replay of one explored path: re-run the same harness with S answering
     from the recorded model values (creation order). payload: module, func, kwargs,
